@@ -187,6 +187,17 @@ func genNumber(r *rand.Rand, o GOpts, feat map[string]bool) GNumber {
 			val = new(big.Rat).Quo(val, p)
 		}
 		return GNumber{txt + E + es, val, "exp"}
+	case use("num.long", 25):
+		// long quantities (base units of tokens, many decimals): 16..27 digits in all, so that the
+		// digit string crosses 2^63 and 2^64 — still inside DESIGN 4.3 (<= 15 integer digits,
+		// <= 12 decimals)
+		ip := digits(r, 12+r.IntN(4), true)
+		if r.IntN(2) == 0 {
+			ip = "9" + ip[1:]
+		}
+		fl := 4 + r.IntN(9)
+		fp := digits(r, fl, false)
+		return GNumber{ip + "." + fp, ratOf(ip + "." + fp), "long"}
 	case use("num.trail", 14):
 		ip := digits(r, 1+r.IntN(4), true)
 		return GNumber{ip + ".", ratOf(ip), "trail"}
